@@ -207,7 +207,32 @@ fn json_dict_probe() {
     println!("json dictionary null value: in {:?} text {:?}", vcore::tok::batch_rows(&batch), String::from_utf8_lossy(&out));
 }
 
+fn ree_encoder_probe() {
+    use arrow_array::types::Int32Type;
+    use arrow_avro::writer::format::{AvroBinaryFormat, AvroSoeFormat};
+    let re = Int32Array::from(vec![1i32, 3]);
+    let vals = Int64Array::from(vec![Some(-3i64), None]);
+    let ree: ArrayRef = Arc::new(RunArray::<Int32Type>::try_new(&re, &vals).unwrap());
+    let schema = Arc::new(Schema::new(vec![Field::new("c0", ree.data_type().clone(), true)]));
+    let batch = RecordBatch::try_new(schema.clone(), vec![ree]).unwrap();
+    println!("ree encoder: in {:?}", vcore::tok::batch_rows(&batch));
+    for (name, parts) in [("whole", vec![batch.clone()]), ("sliced", vec![batch.slice(0, 1), batch.slice(1, 2)])] {
+        let mut e = WriterBuilder::new(schema.as_ref().clone()).build_encoder::<AvroBinaryFormat>().unwrap();
+        for p in &parts {
+            e.encode(p).unwrap();
+        }
+        println!("ree encoder: {name} Encoder<AvroBinaryFormat> rows {:?}", e.flush().iter().map(|b| b.to_vec()).collect::<Vec<_>>());
+        let mut w = WriterBuilder::new(schema.as_ref().clone()).build::<_, AvroSoeFormat>(Vec::new()).unwrap();
+        for p in &parts {
+            w.write(p).unwrap();
+        }
+        w.finish().unwrap();
+        println!("ree encoder: {name} stream Writer<AvroSoeFormat> bytes {:?}", w.into_inner());
+    }
+}
+
 pub fn run() {
+    ree_encoder_probe();
     json_dict_probe();
     ree_probe();
     dict_probe();
